@@ -238,6 +238,57 @@ pub fn quotient(rng: &mut Rng, p: &G) -> Option<G> {
     None
 }
 
+/// every quotient of `p` that identifies one pair of nodes with compatible links (deterministic)
+pub fn all_quotients(p: &G) -> Vec<G> {
+    let live = p.live();
+    let mut res = vec![];
+    for &u in &live {
+        for &v in &live {
+            if u == v {
+                continue;
+            }
+            let (ui, uo) = p.nodes[u].unwrap();
+            let (vi, vo) = p.nodes[v].unwrap();
+            let clash = p.links.iter().any(|l| (l.0 == v && p.out_link(u, l.1).is_some()) || (l.2 == v && p.in_link(u, l.3).is_some()));
+            if clash {
+                continue;
+            }
+            let mut h = p.clone();
+            h.nodes[u] = Some((ui.max(vi), uo.max(vo)));
+            h.nodes[v] = None;
+            for l in h.links.iter_mut() {
+                if l.0 == v {
+                    l.0 = u;
+                }
+                if l.2 == v {
+                    l.2 = u;
+                }
+            }
+            res.push(h);
+        }
+    }
+    res
+}
+
+/// a small dense host: 3-4 nodes with two input and two output ports each, most output ports
+/// linked to a random free input port (parallel links, short cycles, paths that re-enter a node)
+pub fn dense_host(rng: &mut Rng) -> G {
+    let n = rng.range(3, 5);
+    let mut g = G { nodes: vec![Some((2, 2)); n], links: vec![] };
+    let mut free_in: Vec<(usize, usize)> = (0..n).flat_map(|b| (0..2).map(move |i| (b, i))).collect();
+    rng.shuffle(&mut free_in);
+    for a in 0..n {
+        for oa in 0..2 {
+            if rng.chance(4, 5) {
+                if let Some((b, ib)) = free_in.pop() {
+                    g.links.push((a, oa, b, ib));
+                }
+            }
+        }
+    }
+    g
+}
+
 pub fn gen_host(rng: &mut Rng, pats: &[(G, usize)]) -> G {
     if !pats.is_empty() && rng.chance(1, 6) {
         let (p, _) = rng.pick(pats).clone();
@@ -551,7 +602,16 @@ pub fn eval(mode: &str, pats: &[(G, usize)], host: &G, heurs: &[Heur], o: &mut O
                         // which patterns differ
                         let differing: BTreeSet<usize> = ms.iter().filter(|m| !b2.contains(&format!("{:?}", m))).map(|m| m.0)
                             .chain(nv.iter().filter(|m| !a.contains(&format!("{:?}", m))).map(|m| m.0)).collect();
-                        if pats.len() >= 2 && differing.iter().all(|pi| n_index_roots(&pats[*pi].0, pats[*pi].1) >= 2) {
+                        // the known class (D10) makes one side miss real occurrences; a match that only the
+                        // automaton reports must still be an embedding of its pattern
+                        let extra_unsound = ms.iter().filter(|m| !b2.contains(&format!("{:?}", m))).any(|m| {
+                            let (p, root) = &pats[m.0];
+                            let exist = m.1.iter().all(|(_, n)| host.nodes.get(*n).map_or(false, |x| x.is_some()));
+                            let img: Option<BTreeSet<usize>> = root_of(m).and_then(|r| embedding(p, *root, host, r)).map(|f| p.live().iter().map(|u| f[*u].unwrap()).collect());
+                            let vals_core: BTreeSet<usize> = m.1.iter().filter(|(k, _)| !matches!(k, PGIndexKey::PathRoot { index } if *index >= 1)).map(|(_, n)| *n).collect();
+                            !(exist && img.as_ref() == Some(&vals_core))
+                        });
+                        if !extra_unsound && pats.len() >= 2 && differing.iter().all(|pi| n_index_roots(&pats[*pi].0, pats[*pi].1) >= 2) {
                             o.known_finding("pg_foreign_bindings_change_root_candidates", replay.clone());
                         } else {
                             o.violation(format!("pg: ManyMatcher ({}) and NaiveManyMatcher return different sets of (pattern, bindings): only automaton {:?}; only naive {:?}", heur.to_s(), a.difference(&b2).take(2).collect::<Vec<_>>(), b2.difference(&a).take(2).collect::<Vec<_>>()), replay.clone());
@@ -569,13 +629,73 @@ pub fn eval(mode: &str, pats: &[(G, usize)], host: &G, heurs: &[Heur], o: &mut O
             let b: BTreeSet<String> = ms.iter().map(|m| format!("{:?}", m)).collect();
             let differing: BTreeSet<usize> = all_runs[0].1.iter().filter(|m| !b.contains(&format!("{:?}", m))).map(|m| m.0)
                 .chain(ms.iter().filter(|m| !a.contains(&format!("{:?}", m))).map(|m| m.0)).collect();
-            if a != b && pats.len() >= 2 && differing.iter().all(|pi| n_index_roots(&pats[*pi].0, pats[*pi].1) >= 2) {
+            // D10 makes a heuristic miss real occurrences; every match reported by only one of the two
+            // must still be an embedding of its pattern
+            let unsound = |m: &Match| {
+                let (p, root) = &pats[m.0];
+                let exist = m.1.iter().all(|(_, n)| host.nodes.get(*n).map_or(false, |x| x.is_some()));
+                let img: Option<BTreeSet<usize>> = root_of(m).and_then(|r| embedding(p, *root, host, r)).map(|f| p.live().iter().map(|u| f[*u].unwrap()).collect());
+                let vals_core: BTreeSet<usize> = m.1.iter().filter(|(k, _)| !matches!(k, PGIndexKey::PathRoot { index } if *index >= 1)).map(|(_, n)| *n).collect();
+                !(exist && img.as_ref() == Some(&vals_core))
+            };
+            let extra_unsound = all_runs[0].1.iter().filter(|m| !b.contains(&format!("{:?}", m))).any(|m| unsound(m))
+                || ms.iter().filter(|m| !a.contains(&format!("{:?}", m))).any(|m| unsound(m));
+            if a != b && !extra_unsound && pats.len() >= 2 && differing.iter().all(|pi| n_index_roots(&pats[*pi].0, pats[*pi].1) >= 2) {
                 o.known_finding("pg_foreign_bindings_change_root_candidates", case_s(mode, pats, host, h));
             } else if a != b {
                 o.violation(format!("pg: heuristic {} and heuristic {} yield different match sets: only first {:?}; only second {:?}", all_runs[0].0.to_s(), h.to_s(), a.difference(&b).collect::<Vec<_>>(), b.difference(&a).collect::<Vec<_>>()), case_s(mode, pats, host, h));
             }
         }
     }
+}
+
+/// a variant of `g` that shares most of it: a leaf (a node with exactly one link, not the root)
+/// removed, re-attached through another port of the same neighbour, or a new leaf added
+pub fn derive_pattern(rng: &mut Rng, g: &G, root: usize) -> G {
+    let mut h = g.clone();
+    let degree = |g: &G, n: usize| g.links.iter().filter(|l| l.0 == n).count() + g.links.iter().filter(|l| l.2 == n).count();
+    let leaves: Vec<usize> = h.live().into_iter().filter(|&n| n != root && degree(&h, n) == 1).collect();
+    match rng.below(3) {
+        0 | 1 if !leaves.is_empty() => {
+            let leaf = *rng.pick(&leaves);
+            let li = h.links.iter().position(|l| l.0 == leaf || l.2 == leaf).unwrap();
+            let (a, oa, b, ib) = h.links.remove(li);
+            if rng.chance(1, 2) && leaf == h.nodes.len() - 1 {
+                // drop the leaf altogether
+                h.nodes.pop();
+            } else if b == leaf {
+                // the same neighbour, another (new) output port
+                let (ai, ao) = h.nodes[a].unwrap();
+                h.nodes[a] = Some((ai, ao + 1));
+                let (li_, lo_) = h.nodes[leaf].unwrap();
+                h.nodes[leaf] = Some((li_ + 1, lo_));
+                h.links.push((a, ao, leaf, li_));
+                let _ = (oa, ib);
+            } else {
+                let (bi, bo) = h.nodes[b].unwrap();
+                h.nodes[b] = Some((bi + 1, bo));
+                let (li_, lo_) = h.nodes[leaf].unwrap();
+                h.nodes[leaf] = Some((li_, lo_ + 1));
+                h.links.push((leaf, lo_, b, bi));
+            }
+        }
+        _ => {
+            // a new leaf on a new port of some node
+            let m = *rng.pick(&h.live());
+            let ni = h.nodes.len();
+            let (mi, mo) = h.nodes[m].unwrap();
+            if rng.chance(1, 2) {
+                h.nodes[m] = Some((mi, mo + 1));
+                h.nodes.push(Some((2, rng.below(2))));
+                h.links.push((m, mo, ni, rng.below(2)));
+            } else {
+                h.nodes[m] = Some((mi + 1, mo));
+                h.nodes.push(Some((rng.below(2), 2)));
+                h.links.push((ni, rng.below(2), m, mi));
+            }
+        }
+    }
+    h
 }
 
 pub fn gen_pats(rng: &mut Rng) -> Vec<(G, usize)> {
@@ -587,6 +707,11 @@ pub fn gen_pats(rng: &mut Rng) -> Vec<(G, usize)> {
             let (g, _) = rng.pick(&v).clone();
             let r = *rng.pick(&g.live());
             v.push((g, r));
+        } else if !v.is_empty() && rng.chance(1, 4) {
+            // a variant of an earlier pattern with the same root (patterns sharing a prefix of constraints)
+            let (g, r) = rng.pick(&v).clone();
+            let h = derive_pattern(rng, &g, r);
+            v.push((h, r));
         } else {
             let mx = if rng.chance(1, 4) { 6 } else { 4 };
             let g = gen_pattern(rng, mx);
@@ -635,6 +760,27 @@ pub fn run(mode: &str, tier: Tier, seed: u64, o: &mut Out) {
         for h in &hosts {
             eval(mode, &pats, h, &heurs, o);
         }
+        // soundness: every homomorphic image of a pattern that identifies two of its nodes (where a
+        // lost injectivity constraint shows: a path that re-enters one of its own nodes, ...)
+        // a sweep over small dense hosts (every pattern set of 1 in 6 cases)
+        if (mode == "c01" || mode == "c03" || mode == "c05") && !pats.is_empty() && rng.chance(1, 6) {
+            for _ in 0..40 {
+                let h = dense_host(&mut rng);
+                eval(mode, &pats, &h, &heurs[..2], o);
+                o.count("pg_host", "dense small host (sweep)");
+            }
+        }
+        if (mode == "c01" || mode == "c05" || mode == "c03") && !pats.is_empty() && rng.chance(1, 3) {
+            for (pg, _) in pats.iter().take(2) {
+                if pg.live().len() < 3 {
+                    continue;
+                }
+                for q in all_quotients(pg).into_iter().take(8) {
+                    eval(mode, &pats, &q, &heurs[..2], o);
+                    o.count("pg_host", "quotient of a pattern (all pairs), whole pattern set");
+                }
+            }
+        }
     }
     o.notes.push(format!("port graphs: {} random pattern sets (connected patterns of 1-6 nodes, <= 4 ports per side, self-loops, parallel paths, every node as root), planted / random hosts incl. removed nodes; judged by the embedding oracle", n));
 }
@@ -671,9 +817,11 @@ pub fn run_c11(tier: Tier, seed: u64, o: &mut Out) {
                 match rng.below(4) {
                     0 => {
                         // relabel: insert a fresh node slot and permute
-                        let mut perm: Vec<usize> = (0..host.nodes.len()).collect();
+                        // into a larger index space: removed-node slots (holes) below live indices
+                        let slots = host.nodes.len() + rng.below(3);
+                        let mut perm: Vec<usize> = (0..slots).collect();
                         rng.shuffle(&mut perm);
-                        let mut h2 = G { nodes: vec![None; host.nodes.len()], links: vec![] };
+                        let mut h2 = G { nodes: vec![None; slots], links: vec![] };
                         for (i, n) in host.nodes.iter().enumerate() {
                             h2.nodes[perm[i]] = *n;
                         }
@@ -684,7 +832,7 @@ pub fn run_c11(tier: Tier, seed: u64, o: &mut Out) {
                             *m = perm[*m];
                         }
                         host = h2;
-                        "nodes relabelled"
+                        "nodes relabelled (with removed-node slots)"
                     }
                     1 => {
                         host.nodes.push(Some((rng.below(3), rng.below(3))));
